@@ -22,7 +22,11 @@ import FGVerif.Proofs.C07
                                answers on a molecule matching two siblings (why F4 was needed).
 
   What is NOT claimed by these theorems: that CPython's runtime behaves like the model's `Env`
-  (exercised by the subprocess harness), and that `q` (C05's algorithm) reads only the `View`.
+  (exercised by the subprocess harness).  Here the query `q` is a parameter that reads only the
+  `View`; the statement for the COMPOSED model (tree builder of C07 + cache + the actual query
+  algorithm of C05, `q` instantiated) is `C06.query_end_to_end` / `C06.query_end_to_end_total` in
+  `Proofs/C06Full.lean` / `Proofs/C06Total.lean`; "key injective on the list" is discharged from
+  "pattern strings pairwise distinct" by `C06.env_independent_strings` (`Proofs/C06Full.lean`).
   The `parents` list of a node that never got a child keeps the set-iteration order — it is not part
   of the `View`, `FGQuery` never reads it (only `tree2str` prints it).
 -/
